@@ -96,7 +96,7 @@ def index_case(draw):
     if not two_d and draw(st.booleans()):
         c = 'omit'
     how = draw(st.sampled_from(['var', 'range', 'lit']))
-    return {'arr': arr, 'r': r, 'c': c, 'how': how, 'ivar': draw(st.booleans())}
+    return {'arr': arr, 'r': r, 'c': c, 'how': how, 'ivar': draw(st.booleans()), 'sep': draw(st.sampled_from([',', ',', ';', '\\']))}
 
 
 def check_index(case):
@@ -117,6 +117,10 @@ def check_index(case):
         f = 'INDEX(%s,%s)' % (A, spell(r, 'v_r'))
     else:
         f = 'INDEX(%s,%s,%s)' % (A, spell(r, 'v_r'), spell(c, 'v_c'))
+    sep = case.get('sep', ',')
+    if sep != ',' and not (case['how'] == 'lit'):
+        # the other two list separators (array literals keep their own commas, so only for arrays given by name or reference)
+        f = f.replace(',', sep)
     res = outcome(f, kw)
     g = res['result']
     desc = '%s with array %r r=%r c=%r' % (f, arr, r, c)
@@ -255,7 +259,8 @@ def match_case(draw):
 def check_match(case):
     kind, arr, x = case['kind'], case['arr'], case['x']
     kw = {'vars': {'v_x': x}}
-    A = supply(arr, case['how'], kw, rng='C3:C12')
+    host = list(arr)          # the list object handed to the library; expectations are read from `arr`, which the library never sees
+    A = supply(host, case['how'], kw, rng='C3:C12')
     X = 'v_x'
     if case['how'] == 'lit':
         try:
@@ -294,6 +299,8 @@ def check_match(case):
         want = arr[accepted[0] - 1]
         if r2['error'] is not None or r2['result'] != want:
             raise Violation('INDEX(arr, MATCH(%r, arr, 0)) with arr=%r -> %r, expected %r' % (x, arr, r2['error'] or r2['result'], want), r2['error'] or enc(r2['result']), enc(want))
+    if host != arr or any(type(a) != type(b) for a, b in zip(host, arr)):
+        raise Violation('%s changed the list the host handed over: %r is now %r' % (desc, arr, host), enc(host), enc(arr))
 
 
 def match_key(case):
